@@ -5,7 +5,7 @@
    imputation (matrix products) and NNDSVD (sqrt, division) => toleranced. *)
 From Coq Require Import List Arith ZArith QArith Qabs Bool.
 From Coq Require Uint63.
-From TLV Require Import Base.Ops Base.Tensor Model.Svd Corr.Common.
+From TLV Require Import Base.Ops Base.Tensor Model.Svd Model.SvdConj Model.SvdComplex Model.SvdValidate Corr.Common.
 Import ListNotations.
 
 Definition qmat := list (list Q).
@@ -110,21 +110,61 @@ Definition lookup_svd (tape : list (qmat * triple Q * triple Q)) (X : qmat) (ful
   | None => empty3
   end.
 
+(* ---- complex requests (round 6): Gaussian rationals; a complex float64 is a pair of exact rationals.  np.sign / abs go through qsqrt,
+   so every comparison is toleranced; requests whose deciding magnitudes are within rounding distance of a tie are not generated ---- *)
+Definition cmat := list (list C).
+Definition c_close (atol rtol : Q) (a b : C) : bool := qclose atol rtol (fst a) (fst b) && qclose atol rtol (snd a) (snd b).
+Fixpoint c_list_close (atol rtol : Q) (a b : list C) : bool :=
+  match a, b with [], [] => true | x :: a', y :: b' => c_close atol rtol x y && c_list_close atol rtol a' b' | _, _ => false end.
+Fixpoint cmat_close (atol rtol : Q) (a b : cmat) : bool :=
+  match a, b with [], [] => true | x :: a', y :: b' => c_list_close atol rtol x y && cmat_close atol rtol a' b' | _, _ => false end.
+Definition ctriple_close (atol rtol : Q) (a b : triple C) : bool :=
+  let '(U, S1, V) := a in let '(U', S', V') := b in
+  cmat_close atol rtol U U' && c_list_close atol rtol S1 S' && cmat_close atol rtol V V'.
+(* the back end of a complex interface request: LAPACK's two answers (truncated_svd) or eigh's answer (symeig_svd) *)
+Inductive ctape :=
+| CTsvd (full thin : triple C)
+| CTeigh (Gin : cmat) (lam : list C) (W : cmat).       (* Gin: the matrix tl.eigh was handed *)
+Definition cfuns (d1 d2 : nat) (n : option nat) (t : ctape) (f : fname) (_ : nat) (M : cmat) : triple C :=
+  match f, t with
+  | FTruncated, CTsvd a b => truncated_svd (fun fl : bool => if fl then a else b) d1 d2 n
+  | FSymeig, CTeigh Gin lam W =>
+      symeig_svd_conj Cops cconj (fun G => if cmat_close lookup_tol lookup_tol G Gin then (lam, W) else ([], [])) (csq qsqrt) (of_real eps64) M d1 d2 n
+  | _, _ => ([], [], [])
+  end.
+
 Inductive dcase :=
 | DFlip (id : nat) (U V : qmat) (ub : bool) (eU eV : qmat)
-| DSymeig (id : nat) (d1 d2 : nat) (n : option nat) (M : qmat) (lam : list Q) (W : qmat) (expected : triple Q)
+| DSymeig (id : nat) (d1 d2 : nat) (n : option nat) (M Gin : qmat) (lam : list Q) (W : qmat) (expected : triple Q)
 | DRandom (id : nat) (d1 d2 : nat) (n : option nat) (n_over n_iter : nat) (M G : qmat)
-          (qrs : list (qmat * qmat)) (svds : list (qmat * triple Q * triple Q)) (expected : triple Q).
+          (qrs : list (qmat * qmat)) (svds : list (qmat * triple Q * triple Q)) (expected : triple Q)
+| DFlipC (id : nat) (U V : cmat) (ub : bool) (eU eV : cmat)
+| DIfaceC (id : nat) (d1 d2 : nat) (meth : method) (n : option nat) (flip ub : bool) (M : cmat) (t : ctape) (expected : res (triple C))
+| DReject (id : nat) (shape : list nat) (meth : method) (nn : nnreq) (rejected : bool).
 
+Definition ctol_a : Q := Qmake 1 1000000000.
+Definition ctol_r : Q := Qmake 1 1000000.
 Definition dagree (c : dcase) : bool :=
   match c with
   | DFlip _ U V ub eU eV => let '(U', V') := svd_flip Qops U V ub in mat_eqb U' eU && mat_eqb V' eV
-  | DSymeig _ d1 d2 n M lam W e =>
-      triple_close (Qmake 1 1000000000) (Qmake 1 1000000) (symeig_svd Qops (fun _ => (lam, W)) qsqrt eps64 M d1 d2 n) e
+  | DSymeig _ d1 d2 n M Gin lam W e =>       (* the Gram matrix the model builds must be the one eigh was handed *)
+      triple_close (Qmake 1 1000000000) (Qmake 1 1000000)
+        (symeig_svd Qops (fun G => if mat_close lookup_tol lookup_tol G Gin then (lam, W) else ([], [])) qsqrt eps64 M d1 d2 n) e
   | DRandom _ d1 d2 n n_over n_iter M G qrs svds e =>
       triple_close (Qmake 1 1000000000) (Qmake 1 10000000)
                    (randomized_svd Qops (lookup_svd svds) (lookup_qr qrs) G M d1 d2 n n_over n_iter) e
+  | DFlipC _ U V ub eU eV => let '(U', V') := svd_flip_c qsqrt U V ub in cmat_close ctol_a ctol_r U' eU && cmat_close ctol_a ctol_r V' eV
+  | DIfaceC _ d1 d2 meth n flip ub M t e =>
+      match svd_interface_flip (svd_flip_c qsqrt) (cfuns d1 d2 n t) meth M flip ub, e with
+      | Ok a, Ok b => ctriple_close ctol_a ctol_r a b
+      | Err, Err => true
+      | _, _ => false
+      end
+  | DReject _ shape meth nn rejected => Bool.eqb (request_rejected shape meth nn) rejected
   end.
 Definition dident (c : dcase) : nat :=
-  match c with DFlip i _ _ _ _ _ => i | DSymeig i _ _ _ _ _ _ _ => i | DRandom i _ _ _ _ _ _ _ _ _ _ => i end.
+  match c with
+  | DFlip i _ _ _ _ _ => i | DSymeig i _ _ _ _ _ _ _ _ => i | DRandom i _ _ _ _ _ _ _ _ _ _ => i
+  | DFlipC i _ _ _ _ _ => i | DIfaceC i _ _ _ _ _ _ _ _ _ => i | DReject i _ _ _ _ => i
+  end.
 Definition dfailing := failing_ids dagree dident.
